@@ -21,6 +21,11 @@ package analysis
 //@   loop 1 decreases len(first) - index
 //@   loop 2 index j
 //@   loop 2 invariant forall p int :: 0 <= p && p < j ==> index < len(paths[p]) && paths[p][index] == c
+//@   loop 3 index j3
+//@   loop 3 invariant atBoundary <==> (forall p int :: 0 <= p && p < j3 ==> !(index < len(paths[p]) && paths[p][index] != '/'))
+//@   loop 4 invariant 0 <= index && index <= len(first)
+//@   loop 4 invariant forall p, k int :: 0 <= p && p < len(paths) && 0 <= k && k < index ==> k < len(paths[p]) && paths[p][k] == first[k]
+//@   loop 4 decreases index
 
 //@ func selectByFile
 //@   props C17
